@@ -384,6 +384,13 @@ func (db *DB) Merge() error {
 			return err
 		}
 
+		// a segment that is still the active file got no rewrite output (a rewrite moves the
+		// active file on to a fresh segment): it stays, the database keeps appending to it
+		if db.isActiveFile(int64(pendingMergeFId)) {
+			f.rwManager.Close()
+			continue
+		}
+
 		if err := os.Remove(db.getDataPath(int64(pendingMergeFId))); err != nil {
 			db.isMerging = false
 			f.rwManager.Close()
@@ -394,6 +401,14 @@ func (db *DB) Merge() error {
 	}
 
 	return nil
+}
+
+// isActiveFile reports whether the segment with the given id is the one the database appends to.
+func (db *DB) isActiveFile(fID int64) bool {
+	db.mu.RLock()
+	defer db.mu.RUnlock()
+
+	return db.ActiveFile != nil && db.ActiveFile.fileID == fID
 }
 
 // Backup copies the database to file directory at the given dir.
